@@ -17,4 +17,14 @@ def contracts():
         params={"obj": "opq", "attr_name": "int", "is_setting": "bool"},
         ensures=["False"],                      # never returns normally for a non-str attribute name
         raises=["AttributeError"], result="str"))
+    # lua_loader: the relative path appended to the built-in Lua directory has no '..' segment and is not absolute
+    # (so LUA_DIR / prefix / path stays below LUA_DIR / prefix, symbolic links aside)
+    cs.append(Contract(
+        target="luaexec:lua_loader", prop="C06", mode="frame", params={"ctx": "ctx", "modname": "str"}, cvc5_first=True,
+        candidate_refutations=True,
+        asserts={"file_path = LUA_DIR / prefix / path": [
+            "not path.startswith('/')", "'/../' not in path", "not path.startswith('../')", "path != '..'",
+            "not path.endswith('/..')", "path.endswith('.lua')"]},
+        assumed=["pathlib: joining a relative path without '..' segments stays below the left operand (symbolic links "
+                 "inside the package's lua directory are not considered)"]))
     return cs
